@@ -1,7 +1,291 @@
-import HalmosVerif.Model.SimpFold
-namespace HalmosVerif.Props.C06
-open HalmosVerif.Model HalmosVerif.Spec
+/-
+Props.C06 — "Word-level instruction semantics are exact and total".
 
-theorem placeholder : Word.add 1 2 = 3 := by decide
+Every theorem quantifies over ALL operands in every representation class (int-backed, term-backed, literal
+Bool, symbolic Bool), EVERY sound simplifier `s` (`SimpSound s`: the trusted property of z3's `simplify`) and
+EVERY interpretation `I` of free constants / uninterpreted functions that is standard (`I.Std`: the
+abstractions `f_evm_*` mean the exact EVM operation, by-zero = 0).
+
+The model (`Model.BitVecOps`) is tied to bitvec.py / sevm.py by the differential harness tools/props/c06.py.
+The per-method lemmas (`bvAdd_ok`, `bvMul_ok`, …, generic in the bit-vector size) are in `Lemmas/Word*.lean`.
+-/
+import HalmosVerif.Lemmas.WordExec
+import HalmosVerif.Lemmas.WordCost
+
+namespace HalmosVerif.Props.C06
+open HalmosVerif.Model HalmosVerif.Spec HalmosVerif.Lemmas.Word
+
+/-! ### foundations re-exported (so that they are audited with the property) -/
+
+/-- Python's `pow(b, e, m)` (square-and-multiply) is `b ^ e % m` -/
+theorem powMod_eq (b e m : Nat) : powMod b e m = b ^ e % m := Lemmas.Word.powMod_eq b e m
+
+/-- a well-formed term evaluates below `2 ^ width` under every interpretation -/
+theorem eval_lt (I : Interp) (t : T) (h : t.WF) : t.eval I < 2 ^ t.width := T.eval_lt I t h
+
+/-- the hypotheses `SimpSound s` are satisfiable: the constant folder used by the driver, and the identity -/
+theorem foldSimp_sound : SimpSound foldSimp := Lemmas.Word.foldSimp_sound
+theorem idSimp_sound : SimpSound idSimp := Lemmas.Word.idSimp_sound
+
+/-- a standard interpretation used by the examples: `x ↦ 7`, `y ↦ 2^255`, Booleans true -/
+def exI : Interp := Interp.std (fun x _ => if x = "x" then 7 else 2 ^ 255) (fun _ => true)
+  (fun _ _ _ _ => 0) (fun _ _ _ => 0)
+
+theorem exI_std : exI.Std := Interp.std_isStd _ _ _ _
+
+example : powMod 3 (2 ^ 200 + 5) (2 ^ 256) = 3 ^ 5 * powMod 3 (2 ^ 200) (2 ^ 256) % 2 ^ 256 := by
+  decide +kernel
+
+/-! ### 1. exactness and totality -/
+
+/-- **op_exact.** Every word instruction, on stack items of any representation, returns (no Python
+    exception) a well-formed word whose denotation is the Yellow-Paper result on the operands'
+    denotations, and every auxiliary path constraint it emits is true.
+    Guard: SIGNEXTEND requires a concrete size operand (the code raises `NotConcreteError` otherwise,
+    by design — see `signextend_symbolic_size_rejected`). -/
+theorem op_exact {s : Simp} (hs : SimpSound s) {I : Interp} (hI : I.Std) (cfg : WordCfg) (op : WordOp)
+    (args : List HV) (hlen : args.length = arity op) (hargs : ∀ a ∈ args, a.WF ∧ a.IsWord)
+    (hse : op = .SIGNEXTEND → ∀ a, args.head? = some a → (toBV256 s a).isConcrete = true) :
+    ∃ r aux, execWord s cfg op args = .ok (r, aux) ∧ r.WF ∧ r.IsWord ∧
+      r.denote I = specOp op (args.map (·.denote I)) ∧ ∀ c ∈ aux, c.eval I = true := by
+  cases op
+  case ISZERO =>
+    obtain ⟨a, rfl⟩ := len1 hlen
+    exact exec_ISZERO hs hI cfg (hargs a (by simp))
+  case NOT =>
+    obtain ⟨a, rfl⟩ := len1 hlen
+    exact exec_NOT hs hI cfg (hargs a (by simp))
+  case ADDMOD =>
+    obtain ⟨a, b, n, rfl⟩ := len3 hlen
+    exact exec_ADDMOD hs hI cfg (hargs a (by simp)) (hargs b (by simp)) (hargs n (by simp))
+  case MULMOD =>
+    obtain ⟨a, b, n, rfl⟩ := len3 hlen
+    exact exec_MULMOD hs hI cfg (hargs a (by simp)) (hargs b (by simp)) (hargs n (by simp))
+  case SIGNEXTEND =>
+    obtain ⟨a, b, rfl⟩ := len2 hlen
+    exact exec_SIGNEXTEND hs hI cfg (hargs a (by simp)) (hargs b (by simp)) (hse rfl a rfl)
+  all_goals
+    obtain ⟨a, b, rfl⟩ := len2 hlen
+    have ha := hargs a (by simp)
+    have hb := hargs b (by simp)
+    first
+      | exact exec_ADD hs hI cfg ha hb | exact exec_MUL hs hI cfg ha hb | exact exec_SUB hs hI cfg ha hb
+      | exact exec_DIV hs hI cfg ha hb | exact exec_SDIV hs hI cfg ha hb | exact exec_MOD hs hI cfg ha hb
+      | exact exec_SMOD hs hI cfg ha hb | exact exec_EXP hs hI cfg ha hb | exact exec_LT hs hI cfg ha hb
+      | exact exec_GT hs hI cfg ha hb | exact exec_SLT hs hI cfg ha hb | exact exec_SGT hs hI cfg ha hb
+      | exact exec_EQ hs hI cfg ha hb | exact exec_AND hs hI cfg ha hb | exact exec_OR hs hI cfg ha hb
+      | exact exec_XOR hs hI cfg ha hb | exact exec_BYTE hs hI cfg ha hb | exact exec_SHL hs hI cfg ha hb
+      | exact exec_SHR hs hI cfg ha hb | exact exec_SAR hs hI cfg ha hb
+
+/-- the operands of the non-vacuity example, one of each kind: a symbolic Bool (true under `exI`), a term
+    (`y = 2^255`) and an int-backed word: MULMOD(b, y, 1000) -/
+def exArgs : List HV :=
+  [.bool (.sym (.var "b")), .bv 256 (.sym (.var "y" 256)), .bv 256 (.con 1000)]
+
+theorem exArgs_ok : ∀ a ∈ exArgs, a.WF ∧ a.IsWord := by
+  intro a ha
+  simp only [exArgs, List.mem_cons, List.not_mem_nil, or_false] at ha
+  rcases ha with rfl | rfl | rfl
+  · exact word_bool trivial
+  · exact word_var "y"
+  · exact word_con (by decide)
+
+/-- `op_exact` instantiated at the constant folder, a standard interpretation and mixed operands:
+    MULMOD(b, y, 1000) with b = true, y = 2^255 returns a well-formed word denoting `2^255 % 1000 = 968` -/
+example : ∃ r aux, execWord foldSimp {} .MULMOD exArgs = .ok (r, aux) ∧ r.WF ∧ r.IsWord ∧
+    r.denote exI = 968 ∧ ∀ c ∈ aux, c.eval exI = true := by
+  have h := op_exact foldSimp_sound exI_std {} .MULMOD exArgs rfl exArgs_ok (by intro h; cases h)
+  have hv : specOp .MULMOD (exArgs.map (·.denote exI)) = 968 := by decide +kernel
+  rw [hv] at h
+  exact h
+
+/-- **signextend_symbolic_size_rejected.** The one input class `op_exact` excludes: SIGNEXTEND whose size
+    operand is still symbolic after `popi()` raises `NotConcreteError` (never a wrong result). -/
+theorem signextend_symbolic_size_rejected {s : Simp} (hs : SimpSound s) (cfg : WordCfg) (a b : HV)
+    (ha : a.WF ∧ a.IsWord) (hb : b.WF ∧ b.IsWord) (hsym : (toBV256 s a).isConcrete = false) :
+    execWord s cfg .SIGNEXTEND [a, b] = .error .notConcrete := by
+  obtain ⟨ra, ea, _, _⟩ := (toBV256_ok hs Interp.zero ha.1 ha.2).ok_inj
+  obtain ⟨rb, eb, _, _⟩ := (toBV256_ok hs Interp.zero hb.1 hb.2).ok_inj
+  rw [ea] at hsym
+  cases ra with
+  | con k => exact absurd hsym (by simp [HV.isConcrete])
+  | sym t => simp only [execWord, ea, eb]; rfl
+
+example : execWord idSimp {} .SIGNEXTEND [.bv 256 (.sym (.var "x" 256)), .bv 256 (.con 5)] =
+    .error .notConcrete :=
+  signextend_symbolic_size_rejected idSimp_sound {} _ _ (word_var "x") (word_con (by decide)) rfl
+
+/-- **abstraction_axioms_valid.** The side constraints `SEVM.arith` appends for DIV and MOD
+    (`(x / y) <= x`, `(x % y) <= y`) hold under every standard interpretation: they never exclude a real input. -/
+theorem abstraction_axioms_valid {s : Simp} (hs : SimpSound s) {I : Interp} (hI : I.Std) (cfg : WordCfg)
+    (op : WordOp) (hop : op = .DIV ∨ op = .MOD) (a b : HV) (ha : a.WF ∧ a.IsWord) (hb : b.WF ∧ b.IsWord)
+    (r : HV) (aux : List B) (hex : execWord s cfg op [a, b] = .ok (r, aux)) :
+    ∀ c ∈ aux, c.eval I = true := by
+  have hargs : ∀ v ∈ [a, b], v.WF ∧ v.IsWord := by
+    intro v hv
+    simp only [List.mem_cons, List.not_mem_nil, or_false] at hv
+    rcases hv with rfl | rfl
+    · exact ha
+    · exact hb
+  obtain ⟨r', aux', he, _, _, _, haux⟩ := op_exact hs hI cfg op [a, b]
+    (by rcases hop with rfl | rfl <;> rfl) hargs (by rcases hop with rfl | rfl <;> (intro h; cases h))
+  rw [hex] at he
+  cases he
+  exact haux
+
+/-- the constraint really is emitted: symbolic `x / y` yields `f_evm_bvudiv_256(x, y) <= x` -/
+example : ∃ r c, execWord idSimp {} .DIV [.bv 256 (.sym (.var "x" 256)), .bv 256 (.sym (.var "y" 256))] =
+    .ok (r, [c]) ∧ c.eval exI = true := by
+  refine ⟨_, _, rfl, ?_⟩
+  exact abstraction_axioms_valid idSimp_sound exI_std {} .DIV (Or.inl rfl) _ _
+    (word_var "x") (word_var "y") _ _ rfl _ (List.mem_singleton.2 rfl)
+
+/-! ### 2. concrete fast paths agree with the symbolic path -/
+
+/-- **fast_eq_slow.** Two operand lists with equal denotations — e.g. one int-backed (concrete fast paths),
+    one term-backed (symbolic paths) — give results with equal denotations. -/
+theorem fast_eq_slow {s : Simp} (hs : SimpSound s) {I : Interp} (hI : I.Std) (cfg : WordCfg) (op : WordOp)
+    (args args' : List HV) (hlen : args.length = arity op) (hlen' : args'.length = arity op)
+    (hargs : ∀ a ∈ args, a.WF ∧ a.IsWord) (hargs' : ∀ a ∈ args', a.WF ∧ a.IsWord)
+    (hse : op = .SIGNEXTEND → ∀ a, args.head? = some a → (toBV256 s a).isConcrete = true)
+    (hse' : op = .SIGNEXTEND → ∀ a, args'.head? = some a → (toBV256 s a).isConcrete = true)
+    (hden : args.map (·.denote I) = args'.map (·.denote I)) :
+    ∃ r aux r' aux', execWord s cfg op args = .ok (r, aux) ∧ execWord s cfg op args' = .ok (r', aux') ∧
+      r.denote I = r'.denote I := by
+  obtain ⟨r, aux, he, _, _, hd, _⟩ := op_exact hs hI cfg op args hlen hargs hse
+  obtain ⟨r', aux', he', _, _, hd', _⟩ := op_exact hs hI cfg op args' hlen' hargs' hse'
+  exact ⟨r, aux, r', aux', he, he', by rw [hd, hd', hden]⟩
+
+/-- SDIV of int-backed (-8, 3) against the same values hidden in terms the simplifier does not fold
+    (`idSimp`): the fast path and the abstraction path denote the same word -/
+example : ∃ r aux r' aux',
+    execWord idSimp {} .SDIV [.bv 256 (.con (2 ^ 256 - 8)), .bv 256 (.con 3)] = .ok (r, aux) ∧
+    execWord idSimp {} .SDIV [.bv 256 (.sym (.lit 256 (2 ^ 256 - 8))), .bv 256 (.sym (.lit 256 3))] = .ok (r', aux') ∧
+    r.denote exI = r'.denote exI :=
+  fast_eq_slow idSimp_sound exI_std {} .SDIV _ _ rfl rfl
+    (by
+      intro a ha
+      simp only [List.mem_cons, List.not_mem_nil, or_false] at ha
+      rcases ha with rfl | rfl <;> exact word_con (by decide))
+    (by
+      intro a ha
+      simp only [List.mem_cons, List.not_mem_nil, or_false] at ha
+      rcases ha with rfl | rfl <;> exact word_lit _)
+    (by intro h; cases h) (by intro h; cases h) (by decide +kernel)
+
+/-! ### 3. Bool <-> bit-vector coercions -/
+
+/-- **bool_coercion.** A Bool-typed stack item denotes 0 or 1; `popi()` (`toBV256` = `as_bv(256)`),
+    `HalmosBitVec(b, size=256)` (`reBV`) turn it into a well-formed 256-bit word with the same denotation;
+    `is_zero` negates it; and `is_non_zero` of a word denotes `if x ≠ 0 then 1 else 0`. -/
+theorem bool_coercion {s : Simp} (hs : SimpSound s) (I : Interp) (r : BRep) (hwf : (HV.bool r).WF) :
+    (HV.bool r).denote I ≤ 1 ∧
+    (∃ r', toBV256 s (.bool r) = .bv 256 r' ∧ (HV.bv 256 r').WF ∧
+      (HV.bv 256 r').denote I = (HV.bool r).denote I) ∧
+    (∃ r', boolAsBV s r 256 = .bv 256 r' ∧ (HV.bv 256 r').WF ∧
+      (HV.bv 256 r').denote I = (HV.bool r).denote I) ∧
+    (∃ r', reBV s (.bool r) 256 = .bv 256 r' ∧ (HV.bv 256 r').WF ∧
+      (HV.bv 256 r').denote I = (HV.bool r).denote I) ∧
+    (∃ r', boolIsZero s r = .ok (.bool r') ∧ (HV.bool r').WF ∧
+      (HV.bool r').denote I = 1 - (HV.bool r).denote I) :=
+  ⟨bool_denote_le_one I r,
+   (toBV256_ok hs I hwf trivial).ok_inj,
+   (boolAsBV_ok hs I (by decide) hwf).ok_inj,
+   (reBV_bool_ok hs I (by decide) hwf).ok_inj,
+   by
+     obtain ⟨r', h1, h2, h3⟩ := boolIsZero_ok hs I hwf
+     refine ⟨r', h1, h2, ?_⟩
+     rw [h3, bool_denote]
+     cases BRep.val I r <;> rfl⟩
+
+/-- word → Bool: `is_non_zero` / `is_zero` of a bit-vector of any size -/
+theorem bv_truth {s : Simp} (hs : SimpSound s) (I : Interp) (size : Nat) (x : Rep) (hwf : (HV.bv size x).WF) :
+    (∃ r', bvIsNonZero s x = .ok (.bool r') ∧ (HV.bool r').WF ∧
+      (HV.bool r').denote I = if (HV.bv size x).denote I ≠ 0 then 1 else 0) ∧
+    (∃ r', bvIsZero s x = .ok (.bool r') ∧ (HV.bool r').WF ∧
+      (HV.bool r').denote I = if (HV.bv size x).denote I = 0 then 1 else 0) := by
+  constructor
+  · obtain ⟨r', h1, h2, h3⟩ := bvIsNonZero_ok hs I hwf
+    refine ⟨r', h1, h2, ?_⟩
+    rw [h3]
+    by_cases h : (HV.bv size x).denote I = 0
+    · rw [h]; rfl
+    · rw [if_pos h, bne_iff_ne.2 h, if_pos rfl]
+  · obtain ⟨r', h1, h2, h3⟩ := bvIsZero_ok hs I hwf
+    exact ⟨r', h1, h2, h3.trans (ite_beq_nat _ 0)⟩
+
+/-- `ISZERO ∘ ISZERO` of any stack word denotes `if x ≠ 0 then 1 else 0` -/
+theorem iszero_iszero {s : Simp} (hs : SimpSound s) {I : Interp} (hI : I.Std) (cfg : WordCfg) (a : HV)
+    (ha : a.WF ∧ a.IsWord) :
+    ∃ r1 aux1 r2 aux2, execWord s cfg .ISZERO [a] = .ok (r1, aux1) ∧
+      execWord s cfg .ISZERO [r1] = .ok (r2, aux2) ∧ r2.WF ∧ r2.IsWord ∧
+      r2.denote I = if a.denote I ≠ 0 then 1 else 0 := by
+  obtain ⟨r1, aux1, e1, w1, i1, d1, _⟩ := exec_ISZERO hs hI cfg ha
+  obtain ⟨r2, aux2, e2, w2, i2, d2, _⟩ := exec_ISZERO hs hI cfg ⟨w1, i1⟩
+  refine ⟨r1, aux1, r2, aux2, e1, e2, w2, i2, ?_⟩
+  rw [d2, d1]
+  unfold Word.iszero
+  by_cases h : a.denote I = 0
+  · rw [if_pos h, if_neg (by decide), if_neg (by omega)]
+  · rw [if_neg h, if_pos rfl, if_pos h]
+
+example : ∃ r', toBV256 foldSimp (.bool (.sym (.not (.var "b")))) = .bv 256 r' ∧ (HV.bv 256 r').WF ∧
+    (HV.bv 256 r').denote exI = 0 :=
+  (bool_coercion foldSimp_sound exI (.sym (.not (.var "b"))) trivial).2.1
+
+example : ∃ r1 aux1 r2 aux2, execWord foldSimp {} .ISZERO [.bv 256 (.sym (.var "y" 256))] = .ok (r1, aux1) ∧
+    execWord foldSimp {} .ISZERO [r1] = .ok (r2, aux2) ∧ r2.WF ∧ r2.IsWord ∧ r2.denote exI = 1 :=
+  iszero_iszero foldSimp_sound exI_std {} _ (word_var "y")
+
+/-! ### 4. EXP by a small constant -/
+
+/-- **exp_by_const.** For a symbolic base and a concrete exponent `2 ≤ k ≤ smt_exp_by_const` the EXP
+    instruction returns the unrolled product `x·(x·(…·x))` built with the multiplication abstraction
+    (whatever the exponentiation abstraction means — `I` need not be standard for `f_evm_exp_256`),
+    and it denotes `x ^ k % 2 ^ 256`. -/
+theorem exp_by_const {s : Simp} (hs : SimpSound s) {I : Interp}
+    (hmul : UfIs I (ufName "bvmul" 256) 256 (fun a b => a * b % 2 ^ 256))
+    (cfg : WordCfg) (t : T) (ht : t.WF) (hw : t.width = 256) (k : Nat) (h2 : 2 ≤ k)
+    (hk : k ≤ cfg.smtExpByConst) :
+    ∃ r, execWord s cfg .EXP [.bv 256 (.sym t), .bv 256 (.con k)] = .ok (r, []) ∧ r.WF ∧ r.IsWord ∧
+      r.denote I = Word.exp (t.eval I) k ∧
+      .ok r = bvExp.loop s 256 (.sym t) (some (ufName "bvmul" 256)) (k - 1) (.bv 256 (.sym t)) := by
+  have hx : (HV.bv 256 (.sym t)).WF := ⟨by decide, ht, hw⟩
+  obtain ⟨e, r, h1, h2', h3⟩ := bvExp_const_ok hs I (some (ufName "exp" 256)) (some (ufName "bvmul" 256))
+    cfg.smtExpByConst (fun f hf => Option.some.inj hf ▸ hmul) hx h2 hk
+  refine ⟨.bv 256 r, ?_, h2', rfl, h3, ?_⟩
+  · simp only [execWord, withBV2, toBV256, h1]; rfl
+  · rw [← e, h1]
+
+example : ∃ r, execWord foldSimp { smtExpByConst := 4 } .EXP [.bv 256 (.sym (.var "x" 256)), .bv 256 (.con 3)] =
+      .ok (r, []) ∧ r.WF ∧ r.IsWord ∧ r.denote exI = 343 := by
+  obtain ⟨r, h1, h2, h3, h4, _⟩ := exp_by_const foldSimp_sound (I := exI) (std_mul256 exI_std)
+    { smtExpByConst := 4 } (.var "x" 256) (by decide : 0 < 256) rfl 3 (by decide) (by decide)
+  exact ⟨r, h1, h2, h3, h4.trans (by decide +kernel)⟩
+
+/-! ### 5. promptness -/
+
+/-- **op_prompt.** `opCost` annotates the model with the bit length of the largest Python integer its
+    int-backed paths create (`a + b`, `a * b`, `x << k` for `k < 256`, the intermediates of `pow(a, b, 2**256)`,
+    `x - (1 << 256)`). For all operands it is at most 512 (so certainly `≤ 2·512 + 64`): in particular concrete EXP
+    never builds `a ** b`. (`opCost` is a hand annotation of the model's branches, not derived from `execWord`;
+    the harness additionally runs every real instruction under a wall-clock alarm.) -/
+theorem op_prompt (op : WordOp) (args : List HV) (hargs : ∀ a ∈ args, a.WF ∧ a.IsWord) :
+    opCost op args ≤ 512 ∧ opCost op args ≤ 2 * 512 + 64 := by
+  have := opCost_le op args hargs
+  exact ⟨this, by omega⟩
+
+/-- the intermediates of `pow(b, e, 2**256)` never exceed 512 bits, whatever the exponent -/
+theorem powMod_prompt (b e : Nat) (hb : b < 2 ^ 256) : powModCost b e (2 ^ 256) ≤ 512 := by
+  have := powModCost_le (k := 256) (m := 2 ^ 256) (by decide) (Nat.le_refl _) (by decide) e b hb
+  omega
+
+/-- 3^1000 mod 2^256 on the concrete path: intermediates of at most 512 bits (`#eval` gives exactly 512),
+    where `3 ** 1000` has 1585 bits -/
+example : opCost .EXP [.bv 256 (.con 3), .bv 256 (.con 1000)] ≤ 512 ∧ bitLength (3 ^ 1000) = 1585 :=
+  ⟨(op_prompt .EXP _ (by
+      intro a ha
+      simp only [List.mem_cons, List.not_mem_nil, or_false] at ha
+      rcases ha with rfl | rfl <;> exact word_con (by decide))).1, by decide +kernel⟩
 
 end HalmosVerif.Props.C06
